@@ -157,12 +157,30 @@ def operations(rng, ns, quant_ok):
     f = rng.choice([0.5, 1.5, 2.0, 0.9])
     ops.append(('stretch', lambda s: call(sl.stretch_note_sequence, s, f)))
     ops.append(('midi_export', lambda s: call(lambda x: canon_midi(midi_io.note_sequence_to_pretty_midi(x)), s)))
+    # the export's only option: events later than n seconds after the LATEST note end are dropped
+    drop = rng.choice([0, 0, 0.25, 0.5, 1.0])
+    ops.append(('midi_export_drop', lambda s: call(lambda x: canon_midi(midi_io.note_sequence_to_pretty_midi(
+        x, drop_events_n_seconds_after_last_note=drop)), s)))
     fps = rng.choice([8, 16, 31.25, 100])
 
     def roll(s):
         r = sl.sequence_to_pianoroll(s, fps, 21, 108)
         return tuple(np.asarray(x).tobytes() for x in r)
     ops.append(('pianoroll', lambda s: call(roll, s)))
+    rkw = dict(onset_mode=rng.choice(['window', 'length_ms']), onset_window=rng.choice([0, 1, 2]),
+               onset_length_ms=rng.choice([0, 32, 100]), offset_length_ms=rng.choice([0, 32, 100]),
+               onset_delay_ms=rng.choice([0, 0, 30, -30]), min_frame_occupancy_for_label=rng.choice([0.0, 0.0, 0.5, 1.0]),
+               onset_overlap=rng.random() < 0.7, add_blank_frame_before_onset=rng.random() < 0.4)
+
+    def roll_kw(s):
+        r = sl.sequence_to_pianoroll(s, fps, 30, 100, **rkw)
+        return tuple(np.asarray(x).tobytes() for x in r)
+    ops.append(('pianoroll_options', lambda s: call(roll_kw, s)))
+    ops.append(('split_times', lambda s: call(sl.split_note_sequence, s, [a + 0.25, b])))
+    ops.append(('split_hop_inside', lambda s: call(sl.split_note_sequence, s, hop, True)))
+    lo, hi = rng.choice([(0, 127), (40, 80), (60, 72)])
+    ops.append(('transpose_range', lambda s: call(lambda x: sl.transpose_note_sequence(x, k, lo, hi)[0], s)))
+    ops.append(('sustain_other_cc', lambda s: call(sl.apply_sustain_control_changes, s, 63)))
     if quant_ok:
         def extract_events(s):
             q = sl.quantize_note_sequence(s, spq)
